@@ -121,8 +121,28 @@ def run(repo: Repo, chk: Check, thorough: bool = False) -> None:
         chk.ob('R19.1', f'{VIS}.walkabout :: SkipSiblings propagates to the siblings loop after depart', ok,
                'recorded, node finished (children + depart), then re-raised' if ok else
                'SkipSiblings raised by visit() is swallowed (siblings would still be visited) or re-raised before depart', wa.loc)
-    loops = [n for n in wa.walk() if isinstance(n, ast.For) and any(call_name(c) == 'walkabout' for st in n.body for c in ast.walk(st) if isinstance(c, ast.Call))]
-    ok = bool(loops) and all(_exc_flow(wa, lp, 'SkipSiblings', repo) is not None for lp in loops)
+    def children_steps(wf: Func, cw_: CFG, wname_: str) -> List[Tuple[ast.AST, bool]]:
+        """The statements of walker wf that walk the children, each with "a SkipSiblings raised by a child is caught around the loop": the loop over the
+        children calling wname_ itself, or the call of a private helper of the class that is handed the bound walker (`self._walk_children(ob, self.walk)`)
+        and loops calling it."""
+        out: List[Tuple[ast.AST, bool]] = []
+        for n in wf.walk():
+            if isinstance(n, ast.For) and any(call_name(c) == wname_ for st in n.body for c in ast.walk(st) if isinstance(c, ast.Call)):
+                out.append((n, _exc_flow(wf, n, 'SkipSiblings', repo) is not None))
+        for c in calls_in(wf):
+            g = next((h_ for h_ in repo.funcs.values() if h_.cls is wf.cls and h_ is not wf and h_.name == call_name(c) and h_.name.startswith('_')), None)
+            if g is None or dotted(c.func) != f'self.{g.name}':
+                continue
+            gpar = [p_.arg for p_ in g.params() if p_.arg != 'self']
+            for i_, a_ in enumerate(c.args):
+                if dotted(a_) == f'self.{wname_}' and i_ < len(gpar):
+                    for n in g.walk():
+                        if isinstance(n, ast.For) and any(call_name(c2) == gpar[i_] for st in n.body for c2 in ast.walk(st) if isinstance(c2, ast.Call)):
+                            st_c = cw_.stmt_of(c)
+                            out.append((st_c, _exc_flow(g, n, 'SkipSiblings', repo) is not None or _exc_flow(wf, st_c, 'SkipSiblings', repo) is not None))
+        return out
+    steps_wa = children_steps(wa, cfg, 'walkabout')
+    ok = bool(steps_wa) and all(caught for _, caught in steps_wa)
     chk.ob('R19.1', f'{VIS}.walkabout :: children loop stops on SkipSiblings', ok,
            'the loop over get_children is inside try/except SkipSiblings' if ok else 'SkipSiblings from a child is not caught around the children loop',
            wa.loc)
@@ -130,7 +150,7 @@ def run(repo: Repo, chk: Check, thorough: bool = False) -> None:
     # (SkipDeparture only suppresses the node's own depart_*).  Decided on the CFG with the boolean flags a handler sets propagated along.
     EXPECT_CHILDREN = {'SkipNode': False, 'SkipChildren': False, 'SkipDeparture': True, 'SkipSiblings': True}
 
-    def children_reached(fn: Func, cf: CFG, handler: ast.ExceptHandler, loop: ast.For) -> bool:
+    def children_reached(fn: Func, cf: CFG, handler: ast.ExceptHandler, loop: ast.AST) -> bool:
         flags = {t.id: n.value.value for st in handler.body for n in ast.walk(st) if isinstance(n, ast.Assign) and isinstance(n.value, ast.Constant) and
                  isinstance(n.value.value, bool) for t in n.targets if isinstance(t, ast.Name)}
 
@@ -147,7 +167,7 @@ def run(repo: Repo, chk: Check, thorough: bool = False) -> None:
         wf = repo.func(f'{VIS}.{wname}')
         cw = CFG(wf)
         vc = [c for c in calls_in(wf) if call_name(c) == 'visit' and dotted(c.func) == 'self.visit']
-        lps = [n for n in wf.walk() if isinstance(n, ast.For) and any(call_name(c) == wname for st in n.body for c in ast.walk(st) if isinstance(c, ast.Call))]
+        lps = [n for n, _ in children_steps(wf, cw, wname)]
         if len(vc) != 1 or len(lps) != 1:
             raise AnalysisError(f'R19.1: Visitor.{wname}: expected one self.visit(...) call and one loop over the children')
         vs_ = cw.stmt_of(vc[0])
@@ -246,6 +266,18 @@ def run(repo: Repo, chk: Check, thorough: bool = False) -> None:
     chk.require('R19.1', 19)
 
     # ------------------------------------------------------------------ R19.2
+    from ..util import single_value as _single_value
+
+    def _lists_of(f_: Func, e: ast.AST, depth: int = 2) -> Set[str]:
+        """The extension lists an iterated expression stands for, named intermediates written out (`entering_first = ext.before_visit + ext.outter_visit`)."""
+        out = {a.attr for a in ast.walk(e) if isinstance(a, ast.Attribute) and a.attr.endswith('_visit')}
+        if depth > 0:
+            for x in ast.walk(e):
+                if isinstance(x, ast.Name):
+                    v = _single_value(f_, x.id)
+                    if v is not None:
+                        out |= _lists_of(f_, v, depth - 1)
+        return out
     for meth in ('visit', 'depart'):
         f = repo.func(f'{VIS}.{meth}')
         cf = CFG(f)
@@ -258,7 +290,7 @@ def run(repo: Repo, chk: Check, thorough: bool = False) -> None:
         loops = []
         for n in f.walk():
             if isinstance(n, ast.For) and any(isinstance(c, ast.Call) and call_name(c) == meth for st in n.body for c in ast.walk(st)):
-                lists = {a.attr for a in ast.walk(n.iter) if isinstance(a, ast.Attribute) and a.attr.endswith('_visit')}
+                lists = _lists_of(f, n.iter)
                 loops.append((n, lists))
         # the same dispatch through a private helper of the class that loops over the list it is given: `self._visit_with(<lists>, ob)`
         for c in calls_in(f):
@@ -269,7 +301,7 @@ def run(repo: Repo, chk: Check, thorough: bool = False) -> None:
                 gp = [p_.arg for p_ in g.params() if p_.arg not in ('self', 'cls')]
                 if gp and any(isinstance(n, ast.For) and isinstance(n.iter, ast.Name) and n.iter.id == gp[0] and
                               any(isinstance(x, ast.Call) and call_name(x) == meth for st in n.body for x in ast.walk(st)) for n in g.walk()):
-                    lists = {a.attr for a in ast.walk(c.args[0]) if isinstance(a, ast.Attribute) and a.attr.endswith('_visit')}
+                    lists = _lists_of(f, c.args[0])
                     loops.append((cf.stmt_of(c), lists))
         exp_before, exp_after = EXPECTED_ORDER[meth]
         before = [(n, l) for n, l in loops if cf.dominates(n, mstmt, no_exc=True) and n is not mstmt]
